@@ -5,7 +5,7 @@ use crate::corpus::*;
 use crate::gens;
 use crate::prng::Rng;
 use serde_json::{json, Value};
-use std::io::Write;
+use std::io::{Read, Write};
 use std::process::{Command, Stdio};
 
 pub struct Emit {
@@ -93,35 +93,61 @@ fn run_cli(cli: &str, logic: &str, data: &str, form: usize) -> (String, i64, Str
     }
     cmd.stdin(Stdio::piped()).stdout(Stdio::piped()).stderr(Stdio::piped()).env_remove("RUST_BACKTRACE");
     let mut child = cmd.spawn().expect("spawn jsonlogic");
-    {
-        let mut stdin = child.stdin.take().unwrap();
-        if form != 0 {
-            let _ = stdin.write_all(data.as_bytes());
+    // stdin is written, and both output streams are drained, on their own threads: texts longer
+    // than a pipe buffer must neither block this process nor the command.  Long stdin texts are
+    // written in two pieces with a pause, as a slow producer at the other end of a pipe would.
+    let mut stdin = child.stdin.take().unwrap();
+    let payload: Vec<u8> = if form != 0 { data.as_bytes().to_vec() } else { Vec::new() };
+    let writer = std::thread::spawn(move || {
+        if payload.len() > 1 && payload.len() % 3 == 0 {
+            let mid = payload.len() / 2;
+            let _ = stdin.write_all(&payload[..mid]);
+            let _ = stdin.flush();
+            std::thread::sleep(std::time::Duration::from_millis(40));
+            let _ = stdin.write_all(&payload[mid..]);
+        } else {
+            let _ = stdin.write_all(&payload);
         }
-    }
+        drop(stdin);
+    });
+    let mut so = child.stdout.take().unwrap();
+    let mut se = child.stderr.take().unwrap();
+    let t_out = std::thread::spawn(move || {
+        let mut b = Vec::new();
+        let _ = so.read_to_end(&mut b);
+        b
+    });
+    let t_err = std::thread::spawn(move || {
+        let mut b = Vec::new();
+        let _ = se.read_to_end(&mut b);
+        b
+    });
     // a run that does not end within the limit is killed and reported with status 124
     let started = std::time::Instant::now();
-    loop {
+    let mut killed = false;
+    let status = loop {
         match child.try_wait() {
-            Ok(Some(_)) => break,
+            Ok(Some(st)) => break Some(st),
             Ok(None) => {
                 if started.elapsed() > std::time::Duration::from_secs(15) {
                     let _ = child.kill();
                     let _ = child.wait();
-                    return (String::new(), 124, "killed: no exit status within 15 s".into());
+                    killed = true;
+                    break None;
                 }
                 std::thread::sleep(std::time::Duration::from_millis(2));
             }
-            Err(_) => break,
+            Err(_) => break None,
         }
+    };
+    let _ = writer.join();
+    let out = t_out.join().unwrap_or_default();
+    let err = t_err.join().unwrap_or_default();
+    if killed {
+        return (String::new(), 124, "killed: no exit status within 15 s".into());
     }
-    let out = child.wait_with_output().expect("wait");
-    let code = out.status.code().map(|c| c as i64).unwrap_or(255);
-    (
-        String::from_utf8_lossy(&out.stdout).to_string(),
-        code,
-        String::from_utf8_lossy(&out.stderr).chars().take(200).collect(),
-    )
+    let code = status.and_then(|st| st.code()).map(|c| c as i64).unwrap_or(255);
+    (String::from_utf8_lossy(&out).to_string(), code, String::from_utf8_lossy(&err).chars().take(200).collect())
 }
 
 const FORMS: [&str; 3] = ["AsArgument", "StdinNoArgument", "StdinDash"];
@@ -164,6 +190,29 @@ pub fn gen_c18(rng: &mut Rng, count: usize, _thorough: bool) -> Vec<Emit> {
     for (l, d) in fixed {
         for form in 0..3 {
             out.push(cli_case(&cli, "regress", l, d, form).0);
+        }
+    }
+    // texts longer than one read() or one pipe buffer, in all three forms, and chained
+    for n in if _thorough { vec![3000usize, 5000, 35000] } else { vec![3000usize, 5000] } {
+        let big: Vec<Value> = (0..n).map(|i| Value::from((i % 10) as i64)).collect();
+        let dt = Value::Array(big).to_string();
+        for (r, tag) in [
+            (json!({"reduce": [{"var": ""}, {"+": [{"var": "current"}, {"var": "accumulator"}]}, 0]}), "big-data:sum"),
+            (json!({"map": [{"var": ""}, {"+": [{"var": ""}, 1]}]}), "big-data:map"),
+        ] {
+            if tag == "big-data:sum" && n > 10000 {
+                continue; // (reduce nests its context per element: the listed known finding)
+            }
+            for form in 0..3 {
+                if dt.len() > 60_000 && (form != 1 || tag != "big-data:map") {
+                    continue; // the one longer than a pipe buffer: once, through the pipe
+                }
+                let (e, stdout, code) = cli_case(&cli, tag, &r.to_string(), &dt, form);
+                out.push(e);
+                if code == 0 && form == 1 && dt.len() < 60_000 {
+                    out.push(cli_case(&cli, "big-data:chain", "{\"some\":[{\"var\":\"\"},{\"===\":[{\"var\":\"\"},10]}]}", stdout.trim_end(), 2).0);
+                }
+            }
         }
     }
     while out.len() < count {
@@ -237,6 +286,18 @@ pub fn gen_c19_cases(rng: &mut Rng, count: usize, out_path: &str) {
                 for deser in ["default", "identity"] {
                     push(json!({"entry": "apply", "value_json": v.to_string(), "data_json": d.to_string(), "data_mode": mode, "ser": ser, "deser": deser, "tag": "regress-falsy"}), &mut f);
                 }
+            }
+        }
+    }
+    // Python values that are not the image of a JSON text: keys that are not strings, tuples
+    for (vpy, dpy) in [
+        ("{'var': 'x'}", "{1: 0, 'x': 5}"), ("{'var': 'null'}", "{None: 'n', 'k': 1}"), ("{'var': 'true'}", "{True: 1, 'a': 2}"), ("{'var': '1.5'}", "{1.5: 'f', 'b': 0}"),
+        ("{'map': [{'var': 'rows'}, {'var': '7'}]}", "{'rows': [{7: 'seven', 'id': 1}]}"), ("{'merge': [{'var': ''}, (1, 2)]}", "(3, (4,))"), ("{'a': 1, 2: 'b'}", "None"),
+        ("{'var': ('x',)}", "{'x': (1, 2)}"), ("{'in': [2, (1, 2, 3)]}", "None"), ("{'cat': [{'var': '0'}, {'var': '-1'}]}", "{0: 'zero', -1: 'minus', 'z': 1}"),
+    ] {
+        for ser in ["default", "compact"] {
+            for deser in ["default", "identity"] {
+                push(json!({"entry": "apply", "value_py": vpy, "data_py": dpy, "value_json": "null", "data_json": "null", "data_mode": "given", "ser": ser, "deser": deser, "tag": "python-values"}), &mut f);
             }
         }
     }
